@@ -241,6 +241,23 @@ impl Property for C01 {
                 }
             }
         }
+        // more clusters than the reader keeps open (its cluster cache holds 40): 45 full raw clusters
+        // of 4095 tiny contents, every content read back in order through one ContentPack
+        if tier == Tier::Quick {
+            let contents = (0..45 * 4095 + 10u32).map(|i| ContentSpec { len: i % 2, ent: Entropy::Text, seed: i, hint: Hint::No, source: Source::Mem, dup_of: None, flip: None }).collect();
+            out.push(Case { driver: Driver::Bare, comp: Comp::None, contents });
+        }
+        // one content of 16 MiB or more in a compressed cluster of its own (a cluster is only closed
+        // at 4 MiB when it is not empty): the cluster tail then needs 4-byte sizes
+        if tier == Tier::Quick {
+            for (i, comp) in [Comp::Lz4(1), Comp::Zstd(1), Comp::Lzma(1)].into_iter().enumerate() {
+                for (j, len) in [1u32 << 24, (1 << 24) + 3].into_iter().enumerate() {
+                    let target = ContentSpec { len, ent: Entropy::Low, seed: 16 + (i * 2 + j) as u32, hint: if j == 0 { Hint::Yes } else { Hint::Detect }, source: if i == 1 { Source::File } else { Source::Mem }, dup_of: None, flip: None };
+                    let small = ContentSpec { len: 9, ent: Entropy::Text, seed: 5, hint: Hint::Yes, source: Source::Mem, dup_of: None, flip: None };
+                    out.push(Case { driver: Driver::Bare, comp, contents: vec![small.clone(), target, small] });
+                }
+            }
+        }
         out
     }
 
